@@ -122,6 +122,17 @@ func (e *Element) AddOwnWeight() {
 	e.DistributedLoads = append(e.DistributedLoads, load)
 }
 
+// WithOwnWeight returns a copy of the element which includes the distributed load that
+// represents the weight of the element. The original element isn't modified.
+func (e Element) WithOwnWeight() *Element {
+	loads := make([]*load.DistributedLoad, len(e.DistributedLoads), len(e.DistributedLoads)+1)
+	copy(loads, e.DistributedLoads)
+	e.DistributedLoads = loads
+	e.AddOwnWeight()
+
+	return &e
+}
+
 // IsAxialMember returns true if this element is pinned in both ends and, in case of having
 // loads applied, they are always in the end positions of the directrix and does not include
 // moments about Z, but just forces in X and Y directions.
